@@ -1332,7 +1332,7 @@ Section Saml.
   Proof.
     intros S1 S2 H.
     assert (E : validate_response_tree (dsig now) decrypt cfg now (sc root) = validate_response_tree (dsig now) decrypt cfg now root).
-    { unfold validate_response_tree. destruct (cfg_skip_sig cfg).
+    { unfold validate_response_tree, validate_element_signature. destruct (cfg_skip_sig cfg).
       - rewrite unmarshal_response_sc. reflexivity.
       - rewrite (validation_ignores_comments digest sig_ok parse_cert reparse store now root S1 S2).
         destruct (dsig now root); try reflexivity. destruct H as [H|H]; [discriminate H | congruence]. }
@@ -1359,7 +1359,7 @@ Section Saml2.
   Proof.
     intros P EI S K M.
     assert (E : validate_response_tree (dsig now) decrypt cfg now root2 = validate_response_tree (dsig now) decrypt cfg now root1).
-    { unfold validate_response_tree. rewrite K.
+    { unfold validate_response_tree, validate_element_signature. rewrite K.
       rewrite (validation_ignores_attribute_order digest sig_ok parse_cert reparse store now root1 root2 P EI S).
       destruct (dsig now root1); try reflexivity. congruence. }
     split; [exact E|]. unfold retrieve_assertion_info_tree. rewrite E. reflexivity.
